@@ -672,8 +672,57 @@ def expand(mod, facts, depth: int = 0) -> Iterator[tuple[ast.expr, bool]]:
 
 
 def facts_at(mod, fn: ast.AST, node: ast.AST) -> list[tuple[ast.expr, bool]]:
-    """atomic conditions (expression, truth) that hold whenever `node` is evaluated inside fn, looked up through predicate helpers"""
-    return list(expand(mod, guard_facts(mod, fn, node)))
+    """atomic conditions (expression, truth) that hold whenever `node` is evaluated inside fn, looked up through predicate helpers and
+    through locals that keep the outcome of a condition (kept_conditions)"""
+    base = guard_facts(mod, fn, node)
+    return list(expand(mod, base + kept_conditions(mod, fn, node, base)))
+
+
+def _binds(g: CFG, k: int) -> set[str]:
+    """names that evaluating CFG node k binds (the head of its statement; an assignment expression in a branch test)"""
+    st = g.nodes[k].ast
+    if st is None:
+        return set()
+    if g.nodes[k].kind == "test":
+        return {x.target.id for x in ast.walk(st.test) if isinstance(x, ast.NamedExpr) and isinstance(x.target, ast.Name)}  # type: ignore[attr-defined]
+    return _assigned_of(st)
+
+
+def kept_conditions(mod, fn: ast.AST, node: ast.AST, facts: list[tuple[ast.expr, bool]], depth: int = 0) -> list[tuple[ast.expr, bool]]:
+    """what a condition on a local that KEEPS THE OUTCOME of a test says (`ok = a is not None and b is not None` .. `if ok and c:`): for every atom
+    of `facts` that is a plain local of fn, the expression it was bound to, with the truth the atom has - if exactly one binding of the local can
+    reach the place where it is tested, that binding is a plain assignment, and on no path from the binding to `node` (the place the facts are
+    wanted for) a name that the expression mentions is bound again: the expression then still has at `node` the value the local recorded.  Followed
+    through conditions kept in further locals."""
+    if depth > 3 or not isinstance(fn, (ast.FunctionDef, ast.AsyncFunctionDef)):
+        return []
+    out: list[tuple[ast.expr, bool]] = []
+    g = None
+    for e, truth in atoms(list(facts)):
+        if not (isinstance(e, ast.Name) and isinstance(e.ctx, ast.Load)):
+            continue
+        try:
+            if g is None:
+                g = CFG(fn)
+            t = g.node_of(e, mod)
+            target = g.node_of(node, mod)
+        except Exception:
+            continue  # (an expression that is not part of the tree as it is: rewritten from a predicate helper)
+        defs = reaching_defs(g, t, e.id, {})
+        if len(defs) != 1 or g.entry in defs:
+            continue
+        d = next(iter(defs))
+        st = g.nodes[d].ast
+        v = bound_value(st, e.id) if st is not None and len(_assigned_of(st)) == 1 else None
+        if v is None or any(isinstance(x, (ast.NamedExpr, ast.Await, ast.Yield, ast.YieldFrom)) for x in ast.walk(v)):
+            continue
+        free = _names(v)
+        between = (g.reach(d, avoid={d}) & g.reach(target, avoid={d}, forward=False, include_src=True)) - {d}
+        if any(_binds(g, k) & free for k in between):
+            continue
+        got = [(v, truth)]
+        out += got + kept_conditions(mod, fn, node, got, depth + 1)
+    return out
 
 
 def components(mod, fn: ast.AST, value: ast.AST, at: ast.AST, n: int) -> Optional[list[str]]:
@@ -778,12 +827,20 @@ def _assigned_of(st: ast.AST) -> set[str]:
 
 
 # ------------------------------------------------------------------------------------------------------ the value a local holds, by position
-def held_values(g: CFG, at: int, name: str, depth: int = 0, through_augmented: bool = False) -> Optional[list[tuple[ast.AST, int]]]:
+def display_items(v: ast.AST) -> Optional[list[ast.AST]]:
+    """the items of a tuple / list display (none of them starred)"""
+    if isinstance(v, (ast.Tuple, ast.List)) and not any(isinstance(e, ast.Starred) for e in v.elts):
+        return list(v.elts)
+    return None
+
+
+def held_values(g: CFG, at: int, name: str, depth: int = 0, through_augmented: bool = False, items=display_items) -> Optional[list[tuple[ast.AST, int]]]:
     """(expression, CFG node where it was evaluated) for every value the local `name` can hold when node `at` is reached: the right-hand side of
     the bindings that reach it, followed through copies of other locals (`a = b`), through tuples that are packed and unpacked again
     (`p = (x, y)` .. `a, b = p`) and past `= None` (unpacking None raises: no value comes from there when the name is unpacked).  None when a
     binding is of another kind (a loop variable, an augmented assignment, the value at entry).  through_augmented: `x += ..` leaves in x the
-    object it held (true of the containers that are updated in place: the question asked is WHICH object, not what is in it)."""
+    object it held (true of the containers that are updated in place: the question asked is WHICH object, not what is in it).  items: what
+    counts as a tuple whose items are known by position (a display; with Records.items also the construction of a record of the module)."""
     if depth > 6:
         return None
     out: list[tuple[ast.AST, int]] = []
@@ -792,17 +849,17 @@ def held_values(g: CFG, at: int, name: str, depth: int = 0, through_augmented: b
             return None
         st = g.nodes[d].ast
         if through_augmented and isinstance(st, ast.AugAssign) and isinstance(st.target, ast.Name) and st.target.id == name:
-            sub = held_values(g, d, name, depth + 1, through_augmented)
+            sub = held_values(g, d, name, depth + 1, through_augmented, items)
             if sub is None:
                 return None
             out.extend(sub)
             continue
-        vals = _bound_exprs(g, d, st, name, depth, through_augmented)
+        vals = _bound_exprs(g, d, st, name, depth, through_augmented, items)
         if vals is None:
             return None
         for v, where in vals:
             if isinstance(v, ast.Name):
-                sub = held_values(g, where, v.id, depth + 1, through_augmented)
+                sub = held_values(g, where, v.id, depth + 1, through_augmented, items)
                 if sub is None:
                     out.append((v, where))  # a parameter, a loop variable: the name itself is all that is known
                 else:
@@ -812,7 +869,26 @@ def held_values(g: CFG, at: int, name: str, depth: int = 0, through_augmented: b
     return out
 
 
-def _bound_exprs(g: CFG, d: int, st: ast.AST, name: str, depth: int, through_augmented: bool = False) -> Optional[list[tuple[ast.AST, int]]]:
+def computed_from(g: CFG, mod, e: ast.AST, at: int, source, depth: int = 0) -> bool:
+    """is the value of expression e (evaluated at CFG node `at`) computed from a `source` (a predicate on sub-expressions): e contains one, or e
+    mentions a local every binding of which that can reach `at` is a plain assignment (tuple displays unpacked by position) of a value computed from one"""
+    if any(source(x) for x in ast.walk(e)):
+        return True
+    if depth > 4:
+        return False
+    for n in ast.walk(e):
+        if not (isinstance(n, ast.Name) and isinstance(n.ctx, ast.Load)):
+            continue
+        defs = reaching_defs(g, at, n.id, {})
+        if not defs or g.entry in defs:
+            continue
+        vals = [(bound_value(g.nodes[d].ast, n.id) if g.nodes[d].ast is not None else None, d) for d in defs]
+        if all(v is not None and computed_from(g, mod, v, d, source, depth + 1) for v, d in vals):
+            return True
+    return False
+
+
+def _bound_exprs(g: CFG, d: int, st: ast.AST, name: str, depth: int, through_augmented: bool = False, items=display_items) -> Optional[list[tuple[ast.AST, int]]]:
     if isinstance(st, ast.AnnAssign) and isinstance(st.target, ast.Name) and st.target.id == name and st.value is not None:
         return [(st.value, d)]
     if not isinstance(st, ast.Assign):
@@ -827,18 +903,104 @@ def _bound_exprs(g: CFG, d: int, st: ast.AST, name: str, depth: int, through_aug
                 return None
             srcs: list[tuple[ast.AST, int]] = [(st.value, d)]
             if isinstance(st.value, ast.Name):
-                hv = held_values(g, d, st.value.id, depth + 1, through_augmented)
+                hv = held_values(g, d, st.value.id, depth + 1, through_augmented, items)
                 if hv is None:
                     return None
                 srcs = hv
             for v, where in srcs:
                 if isinstance(v, ast.Constant) and v.value is None:
                     continue
-                if isinstance(v, (ast.Tuple, ast.List)) and len(v.elts) == len(t.elts) and not any(isinstance(e, ast.Starred) for e in v.elts):
-                    out.append((v.elts[idx[0]], where))
+                its = items(v)
+                if its is not None and len(its) == len(t.elts):
+                    out.append((its[idx[0]], where))
                 else:
                     return None
     return out or None
+
+
+# ---------------------------------------------------------------------------------------------------------- records of a module
+class Records:
+    """the record classes of a module - classes derived from typing.NamedTuple, whose instances are tuples of their annotated fields in the
+    order of declaration - read as what they stand for: a construction `C(a, f=b)` is the tuple display of its fields, `r.f` on it is the
+    argument given for field f, and `r.p` for a property p whose body is one `return E` is E with the fields of self written out"""
+
+    def __init__(self, mod):
+        self.fields: dict[str, list[tuple[str, Optional[ast.AST]]]] = {}
+        self.props: dict[str, dict[str, ast.AST]] = {}
+        for st in mod.tree.body:
+            if not (isinstance(st, ast.ClassDef) and not st.decorator_list and not st.keywords and len(st.bases) == 1
+                    and (st.bases[0].id if isinstance(st.bases[0], ast.Name) else getattr(st.bases[0], "attr", None)) == "NamedTuple"):
+                continue
+            self.fields[st.name] = [(b.target.id, b.value) for b in st.body if isinstance(b, ast.AnnAssign) and isinstance(b.target, ast.Name)]
+            props: dict[str, ast.AST] = {}
+            for b in st.body:
+                if isinstance(b, ast.FunctionDef) and len(b.decorator_list) == 1 and isinstance(b.decorator_list[0], ast.Name) and b.decorator_list[0].id == "property" \
+                        and len(b.args.args) == 1 and not (b.args.vararg or b.args.kwarg or b.args.kwonlyargs):
+                    body = [x for x in b.body if not (isinstance(x, ast.Expr) and isinstance(x.value, ast.Constant) and isinstance(x.value.value, str))]
+                    if len(body) == 1 and isinstance(body[0], ast.Return) and body[0].value is not None:
+                        props[b.name] = (b.args.args[0].arg, body[0].value)  # type: ignore[assignment]
+            self.props[st.name] = props
+        # a name of the module that is bound more than once does not reliably denote the class
+        bound = [n.id for n in ast.walk(mod.tree) if isinstance(n, ast.Name) and isinstance(n.ctx, (ast.Store, ast.Del))] + \
+                [n.name for n in ast.walk(mod.tree) if isinstance(n, (ast.FunctionDef, ast.AsyncFunctionDef, ast.ClassDef))] + [a.arg for a in ast.walk(mod.tree) if isinstance(a, ast.arg)]
+        for c in list(self.fields):
+            if bound.count(c) != 1:
+                del self.fields[c]
+
+    def construction(self, v: ast.AST) -> Optional[dict[str, ast.AST]]:
+        """field -> argument expression, if v constructs a record of the module"""
+        if not (isinstance(v, ast.Call) and isinstance(v.func, ast.Name) and v.func.id in self.fields):
+            return None
+        if any(isinstance(a, ast.Starred) for a in v.args) or any(k.arg is None for k in v.keywords):
+            return None
+        fl = self.fields[v.func.id]
+        if len(v.args) > len(fl):
+            return None
+        out: dict[str, ast.AST] = {f: a for (f, _d), a in zip(fl, v.args)}
+        for k in v.keywords:
+            if k.arg in out or k.arg not in [f for f, _d in fl]:
+                return None
+            out[k.arg] = k.value  # type: ignore[index]
+        for f, d in fl:
+            if f not in out:
+                if d is None:
+                    return None
+                out[f] = d
+        return {f: out[f] for f, _d in fl}
+
+    def items(self, v: ast.AST) -> Optional[list[ast.AST]]:
+        c = self.construction(v)
+        return list(c.values()) if c is not None else display_items(v)
+
+    def attribute(self, v: ast.AST, attr: str) -> Optional[ast.AST]:
+        """the expression `v.attr` stands for, v a construction of a record: the field's argument, or the property's returned expression over them"""
+        c = self.construction(v)
+        if c is None:
+            return None
+        if attr in c:
+            return c[attr]
+        p = self.props.get(v.func.id, {}).get(attr)  # type: ignore[attr-defined]
+        if p is None:
+            return None
+        me, e = p  # type: ignore[misc]
+
+        class _Fields(ast.NodeTransformer):
+            ok = True
+
+            def visit_Attribute(self, node: ast.Attribute):  # noqa: N802
+                if isinstance(node.value, ast.Name) and node.value.id == me:
+                    if node.attr in c and isinstance(node.ctx, ast.Load):
+                        return _copy.deepcopy(c[node.attr])
+                    _Fields.ok = False
+                    return node
+                return self.generic_visit(node)
+
+            def visit_Name(self, node: ast.Name):  # noqa: N802
+                if node.id == me:
+                    _Fields.ok = False  # self used as a whole
+                return node
+        out = _Fields().visit(_copy.deepcopy(e))
+        return ast.fix_missing_locations(out) if _Fields.ok else None
 
 
 # ------------------------------------------------------------------------------------------------------------ self-call graph of a class
